@@ -415,6 +415,11 @@ theorem exec_good (σ : State S) (g : Good σ) (c : Cmd S) : ResGood (exec σ c)
   | idx v i => simp only [exec]; gb h hh; gb x hx; gp
   | idxflat v i => simp only [exec]; gb h hh; gb x hx; gp
   | convat a f sr sc i => simp only [exec]; gb h hh; gb x hx; split; gp; exact resGood_throw _
+  | matmulat a ta b tb c i =>
+    simp only [exec]; gb h hh; gb x hx
+    cases c with
+    | none => simp only [pure, Except.pure, bind, Except.bind]; split; gp; exact resGood_throw _
+    | some c => simp only []; gb y hy; simp only [pure, Except.pure, bind, Except.bind]; split; gp; exact resGood_throw _
   | eq a b => simp only [exec]; gb h hh; gb x hx; gp
   | same a b => simp only [exec]; gb h hh; gb x hx; gp
   | samegrad a b => simp only [exec]; gb h hh; gb x hx; gp
